@@ -168,6 +168,14 @@ def r1_fullfact(ctx, repo):
             acc.append(T.expand(s_.value, at=s_))
         elif isinstance(s_, ast.Expr) and is_method(s_.value, "extend") and access_path(s_.value.func.value) == blockv and len(s_.value.args) == 1:
             acc.append(T.expand(s_.value.args[0], at=s_))
+        elif isinstance(s_, ast.For) and isinstance(s_.target, ast.Name) and len(s_.body) == 1 and not s_.orelse \
+                and not any(isinstance(x, ast.Name) and x.id == s_.target.id for x in ast.walk(s_.body[0])) \
+                and isinstance(s_.body[0], ast.Expr) and is_method(s_.body[0].value, "append") and access_path(s_.body[0].value.func.value) == blockv \
+                and len(s_.body[0].value.args) == 1 and isinstance(s_.body[0].value.args[0], (ast.Name, ast.Constant)):
+            # for _ in range(R): block.append(j)   is   block += [j] * R
+            rb_ = range_bounds(T.expand(s_.iter, at=s_))
+            if rb_ and (rb_[0] is None or text(rb_[0]) == "0") and rb_[2] is None:
+                acc.append(ast.BinOp(left=ast.List(elts=[s_.body[0].value.args[0]], ctx=ast.Load()), op=ast.Mult(), right=rb_[1]))
     if len(acc) != 1 or not (isinstance(acc[0], ast.BinOp) and isinstance(acc[0].op, ast.Mult)):
         ctx.inconclusive("R1", C, where(doe, il), "level accumulation not recognised")
         return
